@@ -692,3 +692,145 @@ Proof.
   { unfold A, k. rewrite blin_tail. cbn [bn_mult bn_bond]. rewrite <- app_assoc. reflexivity. }
   rewrite Etl. exact Hbody.
 Qed.
+
+(** ** texts made of flat items and units *)
+Inductive seg := SPlain (i : lin) | SUnit (u : unit_t).
+Definition seg_str (s : seg) : pystr := match s with SPlain i => lin_str i | SUnit u => unit_str u end.
+Definition seg_toks (s : seg) : list tok := match s with SPlain i => lin_toks i | SUnit u => unit_toks u end.
+Definition segs_str (l : list seg) : pystr := flat_map seg_str l.
+Definition segs_toks (l : list seg) : list tok := flat_map seg_toks l.
+Definition seg_nodes (s : seg) : nat := match s with SPlain _ => 1%nat | SUnit u => unit_nodes u end.
+Fixpoint segs_nodes (l : list seg) : nat := match l with [] => O | s :: t => (seg_nodes s + segs_nodes t)%nat end.
+(** parentheses of the flat items balance; units stand at depth 0 *)
+Fixpoint seg_depth (d : nat) (l : list seg) : bool :=
+  match l with
+  | [] => true
+  | SPlain i :: t =>
+      let d1 := if l_open i then Datatypes.S d else d in
+      match l_close i with
+      | Some _ => match d1 with O => false | Datatypes.S d2 => seg_depth d2 t end
+      | None => seg_depth d1 t
+      end
+  | SUnit _ :: t => Nat.eqb d 0 && seg_depth O t
+  end.
+Definition seg_ok (fo : float_oracle) (s : seg) : bool := match s with SPlain i => lin_ok fo i | SUnit u => unit_ok fo u end.
+Definition segs_ok (fo : float_oracle) (l : list seg) : bool :=
+  forallb (seg_ok fo) l && seg_depth O l && match l with SPlain i :: _ => negb (l_open i) | _ => true end.
+
+Lemma cont_segs l : cont (segs_str l ++ ["}"%char]).
+Proof.
+  destruct l as [|[i|u] t]; [constructor| |]; cbn [segs_str flat_map seg_str].
+  - unfold lin_str. destruct (l_open i); cbn [app]; rewrite <- ?app_assoc; cbn [app]; constructor.
+  - unfold unit_str. cbn [app]. constructor.
+Qed.
+
+Theorem sim_segs fo : forall l st x pre pc f,
+  forallb (seg_ok fo) l = true -> seg_depth (length (m_stack x)) l = true ->
+  Rel st x -> all_some (m_stack x) -> (m_stack x = [] -> s_recipes st = []) ->
+  (m_prev x = None -> match l with SPlain i :: _ => l_open i = false | _ => True end) ->
+  Forall skipch pre -> pc <> "("%char ->
+  match m_run fo (segs_toks l) x with
+  | Ok x1 => exists st1, main_loop (segs_nodes l + Datatypes.S f) fo pc (pre ++ segs_str l ++ ["}"%char]) st = Ok st1 /\ Rel st1 x1
+  | Err e => main_loop (segs_nodes l + Datatypes.S f) fo pc (pre ++ segs_str l ++ ["}"%char]) st = Err e
+  end.
+Proof.
+  induction l as [|[i|u] t IH]; intros st x pre pc f Hok Hd HR Hs Hinv Hfirst Hpre Hpc.
+  - cbn [segs_toks flat_map m_run segs_str app segs_nodes plus main_loop]. exists st. split; [|assumption].
+    rewrite next_node_skip by (now apply skipch_nob). now rewrite next_node_single.
+  - (* a flat item: as in [sim_loop] *)
+    cbn [forallb seg_ok] in Hok. apply andb_prop in Hok as [Hoki Hokt].
+    cbn [segs_toks flat_map seg_toks]. fold (segs_toks t). rewrite (m_item fo i (segs_toks t) x Hoki).
+    cbn [segs_str flat_map seg_str segs_nodes seg_nodes plus]. fold (segs_str t).
+    set (k := segs_str t ++ ["}"%char]).
+    assert (Hk : cont k) by apply cont_segs.
+    destruct (lin_ok_parts fo i Hoki) as (Hn & _).
+    set (opn := if l_open i then ["("%char] else []).
+    assert (Etext : pre ++ (lin_str i ++ segs_str t) ++ ["}"%char]
+                  = (pre ++ opn) ++ "["%char :: "#"%char :: l_name i ++ "]"%char :: (lin_tail_str i ++ k)).
+    { unfold lin_str, k, opn. rewrite <- !app_assoc. cbn [app]. rewrite <- !app_assoc. reflexivity. }
+    rewrite Etext. cbn [main_loop].
+    assert (Hopn : Forall nob (pre ++ opn)).
+    { apply Forall_app; split; [now apply skipch_nob|]. unfold opn. destruct (l_open i); repeat constructor. discriminate. }
+    rewrite next_node_skip by assumption. rewrite next_node_here by (now apply (name_chars fo)).
+    assert (Hpc' : Ascii.eqb (last (pre ++ opn) pc) "("%char = l_open i).
+    { unfold opn. destruct (l_open i).
+      - rewrite last_last. reflexivity.
+      - rewrite app_nil_r. apply Ascii.eqb_neq. now apply last_skipch. }
+    assert (Hop : l_open i = true -> m_prev x <> None).
+    { intros Ho Hn0. specialize (Hfirst Hn0). cbn in Hfirst. congruence. }
+    assert (Hst : l_close i <> None -> (if l_open i then m_prev x :: m_stack x else m_stack x) <> []).
+    { intros Hc. cbn [seg_depth] in Hd. destruct (l_open i); [discriminate|].
+      destruct (l_close i); [|contradiction]. destruct (m_stack x); [discriminate|discriminate]. }
+    pose proof (node_step_lin fo i k st x _ Hoki Hk HR Hpc' Hop Hst) as Hstep.
+    destruct (item_effect fo i x) as [x1|e] eqn:Eeff; cbn [bind]; [|now rewrite Hstep].
+    destruct Hstep as (st1 & -> & HR1 & Hrc1). cbn [bind].
+    destruct (item_effect_inv fo i x x1 Hoki Eeff Hs Hop) as (Hs1 & Hp1 & Hd1).
+    assert (Hdt : seg_depth (length (m_stack x1)) t = true).
+    { cbn [seg_depth] in Hd. cbv zeta in Hd1. destruct (l_close i); rewrite Hd1 in Hd; exact Hd. }
+    unfold k. apply (IH st1 x1 (lin_tail_str i) "]"%char f Hokt Hdt HR1 Hs1).
+    + intros E. now apply Hrc1.
+    + intros Hn0. contradiction.
+    + now apply (lin_tail_skipch fo).
+    + discriminate.
+  - (* a unit *)
+    cbn [forallb seg_ok] in Hok. apply andb_prop in Hok as [Hoku Hokt].
+    cbn [seg_depth] in Hd. apply andb_prop in Hd as [Hd0 Hdt]. apply Nat.eqb_eq in Hd0.
+    assert (Hstk : m_stack x = []) by (destruct (m_stack x); [reflexivity|discriminate]).
+    cbn [segs_toks flat_map seg_toks]. fold (segs_toks t). rewrite m_run_app.
+    cbn [segs_str flat_map seg_str segs_nodes seg_nodes]. fold (segs_str t).
+    set (K := segs_str t ++ ["}"%char]).
+    assert (HK : cont K) by apply cont_segs.
+    pose proof (unit_sim fo u K Hoku HK st x pre pc (segs_nodes t + Datatypes.S f) HR Hstk (Hinv Hstk) Hpre Hpc) as Hu.
+    replace (unit_nodes u + segs_nodes t + Datatypes.S f)%nat with (unit_nodes u + (segs_nodes t + Datatypes.S f))%nat by lia.
+    rewrite <- app_assoc. fold K.
+    destruct (m_run fo (unit_toks u) x) as [x1|e]; cbn [bind]; [|exact Hu].
+    destruct Hu as (st1 & pre1 & -> & Hpre1 & HR1 & Hrc1 & Hstk1 & Hp1).
+    unfold K. apply (IH st1 x1 pre1 "]"%char f Hokt); try assumption.
+    + now rewrite Hstk1.
+    + rewrite Hstk1. constructor.
+    + intros _. exact Hrc1.
+    + intros Hn0. contradiction.
+    + discriminate.
+Qed.
+
+Lemma seg_str_length s : (seg_nodes s <= length (seg_str s))%nat.
+Proof.
+  destruct s as [i|u]; cbn [seg_nodes seg_str].
+  - unfold lin_str. rewrite app_length. cbn [length]. lia.
+  - unfold unit_str, unit_nodes. repeat (rewrite app_length || cbn [length]).
+    assert (H : (length (u_body u) <= length (flat_map bnode_str (u_body u)))%nat).
+    { induction (u_body u) as [|b r IHr]; [cbn; lia|]. cbn [flat_map length]. rewrite app_length. unfold bnode_str at 1. cbn [length]. lia. }
+    lia.
+Qed.
+Lemma segs_str_length l : (segs_nodes l <= length (segs_str l))%nat.
+Proof.
+  induction l as [|s t IH]; [cbn; lia|]. cbn [segs_nodes segs_str flat_map]. rewrite app_length. fold (segs_str t).
+  pose proof (seg_str_length s). lia.
+Qed.
+
+(** ** the theorem: shorthand text with multiplied branches = longhand tokens *)
+Definition denote_segs (fo : float_oracle) (l : list seg) : res graph := m_finish (m_run fo (segs_toks l) m_init).
+Theorem reader_sim_segs fo l : segs_ok fo l = true ->
+  read_cgsmiles fo ("{"%char :: segs_str l ++ ["}"%char]) = denote_segs fo l.
+Proof.
+  unfold segs_ok. intros H. apply andb_prop in H as [H Hfirst]. apply andb_prop in H as [Hok Hd].
+  unfold read_cgsmiles, denote_segs, m_finish.
+  assert (Elast : last ("{"%char :: segs_str l ++ ["}"%char]) " "%char = "}"%char).
+  { change ("{"%char :: segs_str l ++ ["}"%char]) with (("{"%char :: segs_str l) ++ ["}"%char]). apply last_last. }
+  rewrite Elast.
+  assert (HR : Rel init_state m_init) by (unfold Rel; cbn; repeat split; discriminate).
+  pose proof (segs_str_length l) as Hlen.
+  set (f := (length (segs_str l) + 2 - segs_nodes l)%nat).
+  assert (Ef : Datatypes.S (length ("{"%char :: segs_str l ++ ["}"%char])) = (segs_nodes l + Datatypes.S f)%nat).
+  { cbn [length]. rewrite app_length. cbn [length]. unfold f. lia. }
+  rewrite Ef.
+  pose proof (sim_segs fo l init_state m_init ["{"%char] "}"%char f Hok Hd HR (Forall_nil _) (fun _ => eq_refl)) as Hsim.
+  cbn [app] in Hsim.
+  assert (H1 : m_prev m_init = None -> match l with SPlain i :: _ => l_open i = false | _ => True end).
+  { intros _. destruct l as [|[i|u] t]; try exact I. now destruct (l_open i). }
+  specialize (Hsim H1 ltac:(repeat constructor; discriminate) ltac:(discriminate)).
+  destruct (m_run fo (segs_toks l) m_init) as [x1|e].
+  - destruct Hsim as (st1 & -> & (Rg & _ & _ & Rcy & _)). cbn [bind]. rewrite Rcy, Rg. reflexivity.
+  - rewrite Hsim. reflexivity.
+Qed.
+Print Assumptions reader_sim_segs.
